@@ -41,7 +41,11 @@ def _run_chunk(args):
         if r is None:
             continue
         problems.extend(r.get("problems", []))
-        stats.update(r.get("stats", {}))
+        rs = dict(r.get("stats", {}))
+        for k in list(rs):
+            if k.endswith("_max"):
+                stats[k] = max(stats.get(k, 0), rs.pop(k))
+        stats.update(rs)
         if r.get("sample") is not None and len(samples) < 2:
             samples.append(r["sample"])
     return problems, dict(stats), samples
@@ -62,6 +66,9 @@ def replay_dump(dumpfile, handler_path, opts=None, nproc=16, chunk=200, texts=No
         results = pool.imap_unordered(_run_chunk, [(handler_path, c, opts or {}) for c in chunks])
     for p, s, sm in results:
         problems.extend(p)
+        for k in list(s):
+            if k.endswith("_max"):          # maxima are merged by max, counters by sum
+                stats[k] = max(stats.get(k, 0), s.pop(k))
         stats.update(s)
         if len(samples) < 6:
             samples.extend(sm)
